@@ -397,3 +397,5 @@ def run(ctx):
     C16.r7_discard_frees(ctx, 'C19.R12')  # the window behind discarded DATA returns to the connection: flow-control bookkeeping goes back to its idle value (= C16.R7)
     from .. import boundaries as _b
     _b.check_counts(ctx, 'C19.RQ', 'C19')
+    from . import C18
+    C18.r6_pending_accept(ctx, 'C19.R13', 'the memory of locally reset streams is bounded and *returns to zero*: expiry releases each remembered reset through transition_after(stream, true) (-> dec_num_reset_streams) (= C18.R6)')
